@@ -525,6 +525,8 @@ func famC04(r *Run) {
 	famQuotedControl(r)
 	famBadQuoted(r)
 	famNonASCIIBare(r)
+	famLoneMinus(r)
+	famLiteralEscapes(r)
 }
 
 // ---- C05: no panic, always returns ----
@@ -669,6 +671,8 @@ func famC05(r *Run) {
 	famQuotedControl(r)
 	famNonASCIIBare(r)
 	famSourceFunctionNames(r)
+	famLoneMinus(r)
+	famToNumber(r)
 }
 
 // ---- C06: input never modified (the generic oracle does the work) ----
@@ -698,6 +702,7 @@ func famC06(r *Run) {
 	famFunctionEdges(r)
 	famJSONNumberDocs(r)
 	famNullHoles(r)
+	famDocWrites(r)
 }
 
 // ---- C07: truth, logic, comparators ----
@@ -831,6 +836,7 @@ func famC08(r *Run) {
 	famNumberSpellings(r)
 	famSliceNonArrays(r)
 	famSlicePairs(r)
+	famLoneMinus(r)
 }
 
 // ---- C09: functions on well-typed arguments ----
@@ -928,6 +934,7 @@ func famC09(r *Run) {
 	famFunctionEdges(r)
 	famObjectEquality(r)
 	famNonFinite(r)
+	famDocWrites(r)
 }
 
 // ---- C10: ill-typed calls ----
@@ -1072,6 +1079,7 @@ func famC11(r *Run) {
 	r.treeCases("G-expr-badcalls", r.n(600, 10000), Features{Proj: true, Logic: true, Funcs: true, BadCalls: true, Paren: true}, 5)
 	famFunctionEdges(r)
 	famTypedSliceErrors(r)
+	famLateErrors(r)
 }
 
 func i64(v int64) *int64 { return &v }
@@ -1080,6 +1088,7 @@ func i64(v int64) *int64 { return &v }
 func famC16(r *Run) {
 	r.treeCases("G-expr-all", r.n(2000, 30000), Features{Proj: true, Logic: true, Funcs: true, Paren: true}, 5)
 	famC09(r)
+	famCallSequences(r)
 }
 
 // ---- C17: Compile's contract ----
